@@ -258,6 +258,9 @@ func explore(c cfg, depth int, states map[string]struct{}, nontrivial map[string
 	for d := 0; d < depth && len(frontier) > 0; d++ {
 		var next []item
 		for _, it := range frontier {
+			if vrt.Stop() {
+				return
+			}
 			for op := range opNames {
 				seq := append(append([]int{}, it.seq...), op)
 				w, msg, at := replaySeq(c, seq)
